@@ -1,0 +1,56 @@
+//go:build verif
+
+package blobstore
+
+// VerifProtoHandleState is a snapshot of the bookkeeping of one handle of
+// a BlobAccess backed MutableProtoStore. It is only used by the
+// verification harness (build tag "verif").
+type VerifProtoHandleState struct {
+	// The handle itself, so that it can be compared against the
+	// handles returned by Get().
+	Handle              any
+	DigestHash          string
+	UseCount            int
+	WrittenVersion      int
+	CurrentVersion      int
+	HandlesToWriteIndex int
+	// Whether the store's map of handles refers to this handle.
+	InMap bool
+	// Positions at which the handle occurs in the write queue.
+	QueuePositions []int
+}
+
+// VerifDump returns the state of all handles that are reachable from
+// the store: the ones in the map of handles and the ones queued for
+// writing. The order of the results is unspecified.
+func (ss *blobAccessMutableProtoStore[T, TProto]) VerifDump() []VerifProtoHandleState {
+	ss.lock.Lock()
+	defer ss.lock.Unlock()
+
+	indices := map[*blobAccessMutableProtoHandle[T, TProto]]int{}
+	var results []VerifProtoHandleState
+	get := func(sh *blobAccessMutableProtoHandle[T, TProto]) *VerifProtoHandleState {
+		i, ok := indices[sh]
+		if !ok {
+			i = len(results)
+			indices[sh] = i
+			results = append(results, VerifProtoHandleState{
+				Handle:              sh,
+				DigestHash:          sh.digest.GetHashString(),
+				UseCount:            sh.useCount,
+				WrittenVersion:      sh.writtenVersion,
+				CurrentVersion:      sh.currentVersion,
+				HandlesToWriteIndex: sh.handlesToWriteIndex,
+			})
+		}
+		return &results[i]
+	}
+	for _, sh := range ss.handles {
+		get(sh).InMap = true
+	}
+	for i, sh := range ss.handlesToWrite {
+		st := get(sh)
+		st.QueuePositions = append(st.QueuePositions, i)
+	}
+	return results
+}
